@@ -99,7 +99,9 @@ def one_run(ctx, bins, peer, rid, setup, conf_name, run, skip, max_servers, goma
     script = {"default": "canned", "probe": True, "answer_delay_max_ms": 20, "seed": seed, "mode": "logging", "start_delay_ms": (seed * 37) % 300, "stop_delay_ms": (seed * 53) % 400}
     if seed % 2 == 0:
         script["omit_host"] = True  # the host field of the server's answer is optional: the runner fills in its default
-    if fail_key:
+    if fail_key == "no-cert":
+        script["no_cert"] = True  # every server answers the handshake without its certificate: TLS instances count as not started
+    elif fail_key:
         script["fail_start_for"] = [fail_key]
     args = ["-v", "--conf", confp, "--mode", setup, "--max-servers", str(max_servers)]
     for r in run:
@@ -171,7 +173,10 @@ def check_run(ctx, res, sel, setup, max_servers, fail_key, rid, stats, desc):
     # --- dispatch: exactly once, matching, alive
     expected = dict(sel)
     unstartable = set()
-    if fail_key:
+    if fail_key == "no-cert":
+        unstartable = {n for n, info in sel.items() if info["tls"]}
+        stats["tls_permutations_of_servers_without_certificate"] = stats.get("tls_permutations_of_servers_without_certificate", 0) + len(unstartable)
+    elif fail_key:
         unstartable = {n for n, info in sel.items() if key_of(info) == fail_key}
     if setup == "server":
         seen = {}
@@ -528,9 +533,13 @@ def run(ctx, bins, peer, tier):
         if not sel:
             run, skip = list(SUITE_PATTERNS[conf]), []
             sel = base
+        if i == 11:
+            run, skip, sel = [r for r in SUITE_PATTERNS[conf] if any(e2e.glob_match(r, n) for n in base)], [], base  # the forced no-certificate scenario runs the plain selection
         fail_key = None
         if setup in ("server", "both") and lr.random() < 0.3:
             fail_key = key_of(sel[lr.choice(sorted(sel))])
+        if setup in ("server", "both") and conf in ("A", "B") and (i == 11 or (i > 18 and lr.random() < 0.1)):
+            fail_key = "no-cert"
         res = one_run(ctx, bins, peer, i, setup, conf, run, skip, ms, gm, fail_key, ctx.seed * 1000 + i)
         return p, res, sel, fail_key, run, skip
 
@@ -550,6 +559,8 @@ def run(ctx, bins, peer, tier):
     ctx.extra["not_exhaustive"] = True
     if stats.get("client_cert_dispatches_checked", 0) < 3:
         ctx.inconclusive.append("c05: fewer than 3 client-certificate permutations were dispatched and checked (%d)" % stats.get("client_cert_dispatches_checked", 0))
+    if stats.get("tls_permutations_of_servers_without_certificate", 0) < 3:
+        ctx.inconclusive.append("c05: the servers-without-certificate scenario covered fewer than 3 TLS permutations")
     if stats.get("client_fault_decided", 0) < 1:
         ctx.inconclusive.append("c05: no client-fault scenario took place")
     if stats.get("server_leaves_decided", 0) < 1:
